@@ -1,5 +1,6 @@
 (* C17 Control-plane messages survive their wire encodings.  Statements only; proofs live in Proofs/WireProofs*.v *)
-From UM Require Import Base.BytesDef Base.Dec Model.Wire Proofs.WireProofsBase Proofs.WireProofsLeaf.
+From UM Require Import Base.BytesDef Base.Dec Model.Wire Proofs.WireProofsBase Proofs.WireProofsLeaf Proofs.WireProofsCluster Proofs.WireProofsRepl Proofs.WireProofsTrunc
+  Proofs.WireProofsSound Proofs.WireProofsSoundRepl Proofs.WireProofsCompact.
 
 (* ---- leaf records: decode (encode x ++ rest) = Ok (normal form of x, rest) ---- *)
 
@@ -64,6 +65,137 @@ Check C17_fixed_arity_truncation :
   (forall a k, wf_task (sa_meta a) = true -> (k < length (sa_to_strings a))%nat -> is_err (parse_switch (firstn k (sa_to_strings a))) = true).
 Print Assumptions C17_fixed_arity_truncation.
 
+(* ---- cluster metadata (UMCTL SETCLUSTER), plain form ----
+   `ord` is the order in which the HashMap of to_str_map lists the config fields, the order of the association lists
+   p_local / p_peer is the iteration order of the node HashMaps: the statements hold for every order.
+   The plain encoding cannot say that a node has no slot range: such nodes are dropped (class has_empty_node). *)
+Theorem C17_cluster_plain : forall unpack ord m, wf_pcm m = true -> (forall f, In f ord) ->
+  parse_pcm unpack (pcm_to_args ord m) = Ok (drop_empty_nodes (normalize m), true).
+Proof. exact pcm_plain_roundtrip. Qed.
+Check C17_cluster_plain : forall unpack ord m, wf_pcm m = true -> (forall f, In f ord) ->
+  parse_pcm unpack (pcm_to_args ord m) = Ok (drop_empty_nodes (normalize m), true).
+Print Assumptions C17_cluster_plain.
+
+Theorem C17_cluster_plain_exact : forall unpack ord m, wf_pcm m = true -> (forall f, In f ord) ->
+  has_empty_node m = false ->
+  parse_pcm unpack (pcm_to_args ord m) = Ok (normalize m, true) /\ (pcm_compact m = true -> normalize m = m).
+Proof.
+  intros unpack ord m H Ho He. split; [apply pcm_plain_roundtrip_exact; assumption|apply normalize_id; exact H].
+Qed.
+Check C17_cluster_plain_exact : forall unpack ord m, wf_pcm m = true -> (forall f, In f ord) ->
+  has_empty_node m = false ->
+  parse_pcm unpack (pcm_to_args ord m) = Ok (normalize m, true) /\ (pcm_compact m = true -> normalize m = m).
+Print Assumptions C17_cluster_plain_exact.
+
+(* the empty-node class is inhabited and really loses the node: witness by computation *)
+Definition ex_cfg : config := MkCfg SetGetOnly 666 66699 500 16.
+Definition ex_empty : pcm := MkPcm 7 (MkFlags true false) [99] [([49; 58; 49], [])] [] ex_cfg.
+Theorem C17_empty_node_witness :
+  wf_pcm ex_empty = true /\ has_empty_node ex_empty = true /\
+  parse_pcm (fun _ => None) (pcm_to_args all_cfields ex_empty) = Ok (MkPcm 7 (MkFlags true false) [99] [] [] ex_cfg, true) /\
+  MkPcm 7 (MkFlags true false) [99] [] [] ex_cfg <> normalize ex_empty.
+Proof. split; [|split; [|split]]; try (vm_compute; reflexivity). vm_compute. discriminate. Qed.
+Check C17_empty_node_witness :
+  wf_pcm ex_empty = true /\ has_empty_node ex_empty = true /\
+  parse_pcm (fun _ => None) (pcm_to_args all_cfields ex_empty) = Ok (MkPcm 7 (MkFlags true false) [99] [] [] ex_cfg, true) /\
+  MkPcm 7 (MkFlags true false) [99] [] [] ex_cfg <> normalize ex_empty.
+Print Assumptions C17_empty_node_witness.
+
+(* ---- compressed form: the hypothesis stands for serde_json + gzip + base64 (tested against the real libraries by the
+   harness); nothing is normalised or dropped, left-over tokens are ignored ---- *)
+Theorem C17_cluster_compressed : forall (pack : pcm_data -> tok) (unpack : tok -> option pcm_data),
+  (forall d, unpack (pack d) = Some d) ->
+  forall m rest, wf_pcm_z m = true -> parse_pcm unpack (pcm_to_compressed_args pack m ++ rest) = Ok (m, true).
+Proof. exact pcm_compressed_roundtrip. Qed.
+Check C17_cluster_compressed : forall (pack : pcm_data -> tok) (unpack : tok -> option pcm_data),
+  (forall d, unpack (pack d) = Some d) ->
+  forall m rest, wf_pcm_z m = true -> parse_pcm unpack (pcm_to_compressed_args pack m ++ rest) = Ok (m, true).
+Print Assumptions C17_cluster_compressed.
+
+(* every truncation of a plain SETCLUSTER vector is rejected, except at the boundaries where the remainder is itself a
+   complete message (after the header, after a node group, after PEER / CONFIG, after a complete config pair), and -
+   with both node maps non-empty - between a config field and its value, where the parser tolerates the config error *)
+Theorem C17_cluster_truncation : forall unpack ord m k, wf_pcm m = true -> (k < length (pcm_to_args ord m))%nat ->
+  is_err (parse_pcm unpack (firstn k (pcm_to_args ord m))) = true
+  \/ at_group_boundary ord m k = true \/ at_config_value_cut ord m k = true.
+Proof. exact pcm_truncation. Qed.
+Check C17_cluster_truncation : forall unpack ord m k, wf_pcm m = true -> (k < length (pcm_to_args ord m))%nat ->
+  is_err (parse_pcm unpack (firstn k (pcm_to_args ord m))) = true
+  \/ at_group_boundary ord m k = true \/ at_config_value_cut ord m k = true.
+Print Assumptions C17_cluster_truncation.
+
+(* ---- replication metadata (UMCTL SETREPL) ---- *)
+Theorem C17_repl : forall m, wf_repl m = true -> parse_repl (encode_repl m) = Ok m.
+Proof. exact repl_roundtrip. Qed.
+Check C17_repl : forall m, wf_repl m = true -> parse_repl (encode_repl m) = Ok m.
+Print Assumptions C17_repl.
+
+(* every truncation of a SETREPL vector is rejected, except after the header and after a complete record *)
+Theorem C17_repl_truncation : forall m k, wf_repl m = true -> (k < length (encode_repl m))%nat ->
+  is_err (parse_repl (firstn k (encode_repl m))) = true \/ at_record_boundary m k = true.
+Proof. exact repl_truncation. Qed.
+Check C17_repl_truncation : forall m k, wf_repl m = true -> (k < length (encode_repl m))%nat ->
+  is_err (parse_repl (firstn k (encode_repl m))) = true \/ at_record_boundary m k = true.
+Print Assumptions C17_repl_truncation.
+
+(* ---- parser soundness: only grammatical vectors are accepted, and the result is what the vector says ----
+   `shaped_like toks canon` relates the consumed tokens one by one to the printer's tokens for a raw value: equal, or the
+   same number in the syntax str::parse::<u64> accepts, or a range token denoting the same range, or the MIGRATING /
+   IMPORTING keyword in another case.  The result is the normal form of that raw value. *)
+Theorem C17_slot_range_sound : forall toks sr rest, parse_sr toks = Ok (sr, rest) ->
+  exists sr0 pre, toks = pre ++ rest /\ shaped_like pre (sr_to_strings sr0) /\ sr = norm_sr sr0 /\ compact (sr_ranges sr0) <> None.
+Proof. exact parse_sr_sound. Qed.
+Check C17_slot_range_sound : forall toks sr rest, parse_sr toks = Ok (sr, rest) ->
+  exists sr0 pre, toks = pre ++ rest /\ shaped_like pre (sr_to_strings sr0) /\ sr = norm_sr sr0 /\ compact (sr_ranges sr0) <> None.
+Print Assumptions C17_slot_range_sound.
+
+(* an accepted SETCLUSTER vector is: v2, a number, a flags token, then either (COMPRESS set) one data token that unpacks to
+   the result, anything after it being ignored; or a valid cluster name, a run of node groups `address :: slot range`
+   (no address is PEER/CONFIG in any case) which are pushed into the local map in order, and a sequence of PEER / CONFIG
+   sections (relation `sections`: each PEER section replaces the peer map by its groups, each CONFIG section is a list
+   of field/value pairs applied to the DEFAULT config, a failing CONFIG section is tolerated only when local and peer
+   are non-empty and then clears the extended-result flag); every token is accounted for *)
+Theorem C17_parse_sound : forall unpack toks m ext, parse_pcm unpack toks = Ok (m, ext) ->
+  exists et ft tail, toks = kw_v2 :: et :: ft :: tail /\ parse_u64 et = Some (p_epoch m) /\ flags_from_arg ft = p_flags m /\
+  ((f_compress (p_flags m) = true /\ ext = true /\
+    exists data ignored, tail = data :: ignored /\ unpack data = Some (pcm_data_of m))
+   \/
+   (f_compress (p_flags m) = false /\
+    exists pre gs rest, tail = p_name m :: pre ++ rest /\ valid_cluster_name (p_name m) = true /\
+      shaped_like pre (groups_toks gs) /\ Forall group_ok gs /\ p_local m = push_groups gs [] /\ stops rest /\
+      sections (p_local m) rest [] default_config true (p_peer m) (p_config m) ext)).
+Proof. exact parse_pcm_sound. Qed.
+Check C17_parse_sound : forall unpack toks m ext, parse_pcm unpack toks = Ok (m, ext) ->
+  exists et ft tail, toks = kw_v2 :: et :: ft :: tail /\ parse_u64 et = Some (p_epoch m) /\ flags_from_arg ft = p_flags m /\
+  ((f_compress (p_flags m) = true /\ ext = true /\
+    exists data ignored, tail = data :: ignored /\ unpack data = Some (pcm_data_of m))
+   \/
+   (f_compress (p_flags m) = false /\
+    exists pre gs rest, tail = p_name m :: pre ++ rest /\ valid_cluster_name (p_name m) = true /\
+      shaped_like pre (groups_toks gs) /\ Forall group_ok gs /\ p_local m = push_groups gs [] /\ stops rest /\
+      sections (p_local m) rest [] default_config true (p_peer m) (p_config m) ext)).
+Print Assumptions C17_parse_sound.
+
+Theorem C17_repl_sound : forall toks m, parse_repl toks = Ok m ->
+  exists et ft body, toks = et :: ft :: body /\ parse_u64 et = Some (rm_epoch m) /\ flags_from_arg ft = rm_flags m /\
+                     records body (rm_masters m) (rm_replicas m).
+Proof. exact parse_repl_sound. Qed.
+Check C17_repl_sound : forall toks m, parse_repl toks = Ok m ->
+  exists et ft body, toks = et :: ft :: body /\ parse_u64 et = Some (rm_epoch m) /\ flags_from_arg ft = rm_flags m /\
+                     records body (rm_masters m) (rm_replicas m).
+Print Assumptions C17_repl_sound.
+
+(* RangeList::compact really yields the normal form (start <= end, sorted, neither overlapping nor adjacent), so every range
+   list a parser returns is one *)
+Theorem C17_compact_normal_form :
+  (forall l c, compact l = Some c -> is_compact c = true) /\
+  (forall toks c rest, parse_range_list toks = Ok (c, rest) -> is_compact c = true).
+Proof. split; [exact compact_is_compact|exact parse_range_list_compact]. Qed.
+Check C17_compact_normal_form :
+  (forall l c, compact l = Some c -> is_compact c = true) /\
+  (forall toks c rest, parse_range_list toks = Ok (c, rest) -> is_compact c = true).
+Print Assumptions C17_compact_normal_form.
+
 (* non-vacuity: concrete non-trivial values satisfy the hypotheses *)
 Definition ex_mm : mig_meta := MkMM 7799 [49; 50; 55] [97] [98] [99; 58; 49].
 Definition ex_task : task_meta := MkTM [109; 121] (MkSR [(233, 666); (700, 800)] (TMigrating ex_mm)).
@@ -73,3 +205,72 @@ Example C17_task_example :
   length (tm_to_strings ex_task) = 10%nat /\
   parse_sr (sr_to_strings (MkSR [(30, 20); (0, 10); (11, 15)] TNone)) = Ok (MkSR [(0, 15); (20, 30)] TNone, []).
 Proof. vm_compute. repeat split. Qed.
+
+Definition ex_sr1 : slot_range := MkSR [(0, 100); (200, 300)] TNone.
+Definition ex_sr2 : slot_range := MkSR [(500, 600)] (TImporting ex_mm).
+Definition ex_pcm : pcm :=
+  MkPcm 233 (MkFlags true false) [109; 121] [([49; 58; 49], [ex_sr1; ex_sr2]); ([49; 58; 50], [ex_sr1])] [([50; 58; 49], [ex_sr1])] ex_cfg.
+Definition ex_repl : repl_meta :=
+  MkRepl 5 (MkFlags false false) [MkRec [99] [49; 58; 49] [([50; 58; 49], [50; 58; 50])]] [MkRec [99] [51; 58; 49] []].
+Example C17_cluster_example :
+  wf_pcm ex_pcm = true /\ has_empty_node ex_pcm = false /\ pcm_compact ex_pcm = true /\
+  length (pcm_to_args all_cfields ex_pcm) = 37%nat /\
+  parse_pcm (fun _ => None) (pcm_to_args [FScanCount; FStrategy; FMaxBlocking; FMaxMigration; FScanInterval] ex_pcm) = Ok (ex_pcm, true) /\
+  (forall f, In f all_cfields) /\
+  wf_pcm_z (MkPcm 1 (MkFlags false true) [] [] [] ex_cfg) = true /\
+  wf_repl ex_repl = true /\ length (encode_repl ex_repl) = 12%nat /\ at_record_boundary ex_repl 8 = true /\ at_record_boundary ex_repl 9 = false.
+Proof.
+  assert (A : forall f, In f all_cfields) by (intros []; cbn; tauto).
+  split; [|split; [|split; [|split; [|split; [|split; [exact A|]]]]]]; try (vm_compute; reflexivity).
+  repeat split; vm_compute; reflexivity.
+Qed.
+
+(* ---- the plain format is not robust (the last clause of the property is false of it): witnesses by computation.
+   Deleting the PEER token (index 21) of a well-formed message yields a vector that is itself a printer output
+   (in_language) and parses to DIFFERENT metadata (the peer has become a local node); cutting the same message after its
+   first node group (8 tokens, a group boundary) or between a config field and its value (28 tokens) is accepted too. ---- *)
+Definition no_unpack : tok -> option pcm_data := fun _ => None.
+Theorem C17_format_not_robust_witness :
+  wf_pcm ex_pcm = true /\
+  nth 21 (pcm_to_args all_cfields ex_pcm) [] = kw_PEER /\
+  (exists m', parse_pcm no_unpack (delete_nth 21 (pcm_to_args all_cfields ex_pcm)) = Ok (m', true)
+              /\ m' <> drop_empty_nodes (normalize ex_pcm) /\ p_peer m' = [] /\ length (p_local m') = 3%nat) /\
+  in_language no_unpack (delete_nth 21 (pcm_to_args all_cfields ex_pcm)) = true /\
+  (exists m', parse_pcm no_unpack (firstn 8 (pcm_to_args all_cfields ex_pcm)) = Ok (m', true)
+              /\ m' <> drop_empty_nodes (normalize ex_pcm)) /\
+  at_group_boundary all_cfields ex_pcm 8 = true /\
+  (exists m', parse_pcm no_unpack (firstn 28 (pcm_to_args all_cfields ex_pcm)) = Ok (m', false)
+              /\ p_config m' = default_config) /\
+  at_config_value_cut all_cfields ex_pcm 28 = true.
+Proof.
+  split; [vm_compute; reflexivity|]. split; [vm_compute; reflexivity|].
+  split. { eexists. split; [vm_compute; reflexivity|]. split; [vm_compute; discriminate|]. split; vm_compute; reflexivity. }
+  split; [vm_compute; reflexivity|].
+  split. { eexists. split; [vm_compute; reflexivity|]. vm_compute; discriminate. }
+  split; [vm_compute; reflexivity|].
+  split. { eexists. split; vm_compute; reflexivity. }
+  vm_compute; reflexivity.
+Qed.
+Check C17_format_not_robust_witness :
+  wf_pcm ex_pcm = true /\
+  nth 21 (pcm_to_args all_cfields ex_pcm) [] = kw_PEER /\
+  (exists m', parse_pcm no_unpack (delete_nth 21 (pcm_to_args all_cfields ex_pcm)) = Ok (m', true)
+              /\ m' <> drop_empty_nodes (normalize ex_pcm) /\ p_peer m' = [] /\ length (p_local m') = 3%nat) /\
+  in_language no_unpack (delete_nth 21 (pcm_to_args all_cfields ex_pcm)) = true /\
+  (exists m', parse_pcm no_unpack (firstn 8 (pcm_to_args all_cfields ex_pcm)) = Ok (m', true)
+              /\ m' <> drop_empty_nodes (normalize ex_pcm)) /\
+  at_group_boundary all_cfields ex_pcm 8 = true /\
+  (exists m', parse_pcm no_unpack (firstn 28 (pcm_to_args all_cfields ex_pcm)) = Ok (m', false)
+              /\ p_config m' = default_config) /\
+  at_config_value_cut all_cfields ex_pcm 28 = true.
+Print Assumptions C17_format_not_robust_witness.
+
+(* soundness hypotheses are inhabited by vectors the printer never emits: lower-case keywords, '+' and leading zeros,
+   a third piece in a range token, an interleaved group, a repeated PEER section *)
+Example C17_sound_example :
+  exists m e, parse_pcm no_unpack
+    [kw_v2; [43; 53]; [120]; [99];
+     [97]; [109; 105; 103; 114; 97; 116; 105; 110; 103]; [48; 49]; [53; 45; 51; 45; 57]; [55]; [115]; [116]; [117]; [118];
+     [98]; [49]; [57; 45; 57]; [97]; [49]; [49; 48; 45; 50; 48];
+     [112; 101; 101; 114]; [113]; [49]; [49; 45; 49]; kw_PEER] = Ok (m, e) /\ p_epoch m = 5 /\ p_peer m = [] /\ length (p_local m) = 2%nat.
+Proof. eexists. eexists. split; [vm_compute; reflexivity|]. vm_compute. repeat split. Qed.
